@@ -159,6 +159,10 @@ class Check:
         rc, out = sh([sys.executable, os.path.join(ROOT, "translate", script), REPO, LEAN, *args])
         if rc != 0:
             self.broke(f"translator {script}", out)
+            # the extractor refused this tree: fall back to the committed Gen.lean (what the clean tree
+            # generates) so that the model is the clean model and the correspondence run can exhibit the
+            # behavioural difference, instead of a stale file left by an earlier run
+            sh(["git", "-C", ROOT, "checkout", "--", f"lean/Cppcms/{self.prop}/Gen.lean"])
             return False
         self.log(f"translate {script}: ok ({out.strip().splitlines()[-1] if out.strip() else ''})")
         return True
@@ -260,6 +264,7 @@ class Check:
         d = TSAN if tsan else ASAN
         srcs = [os.path.join(HARNESS_SRC, s) for s in (sources or [name + ".cpp"])]
         outp = os.path.join(HARNESS_BIN, name + ("_tsan" if tsan else ""))
+        final, outp = outp, outp + f".tmp{os.getpid()}"
         san = ["-fsanitize=thread"] if tsan else ["-fsanitize=address,undefined", "-fno-sanitize-recover=undefined"]
         cmd = ["g++", f"-std={std}", "-O1", "-g", "-w", "-fno-omit-frame-pointer", *san, f"-D{GUARD}",
                f"-I{HARNESS_SRC}", f"-I{REPO}", f"-I{REPO}/booster", f"-I{d}", f"-I{d}/booster",
@@ -270,7 +275,8 @@ class Check:
         if rc != 0:
             self.broke(f"harness {name} does not compile against the working tree", out[-4000:])
             return None
-        return outp
+        os.replace(outp, final)      # atomic: a concurrent run never execs a half-written binary
+        return final
 
     # ----------------------------------------------------------------- run
     def model_exe(self, name=None):
